@@ -269,6 +269,70 @@ def run_rand(cls, assign, scripted=True):
     return res
 
 
+def run_seq(cls, assign, scripted=True):
+    """construct -> one successful randomise (+ bias / variance / mse / effective_epsilon where they exist) -> assign ->
+    randomise again.  Guards against any 'validated once, then cached' pattern."""
+    m = make(cls)
+    value = SPEC[cls]["value"]
+
+    def first():
+        with warnings.catch_warnings():
+            warnings.simplefilter("ignore")
+            with np.errstate(all="ignore"):
+                m.randomise(value)
+                for fn in ("bias", "variance", "mse", "effective_epsilon"):
+                    f = getattr(m, fn, None)
+                    if f is None:
+                        continue
+                    try:
+                        f() if fn == "effective_epsilon" else f(value)
+                    except Exception:  # noqa - NotImplementedError etc.: these are only there to warm any cache
+                        pass
+        return True
+    try:
+        ok, timed_out = with_timeout(first, 5.0)
+    except Exception as e:  # noqa
+        return "first-randomise-failed:" + kind_of(e), None
+    if timed_out:
+        return "first-randomise-failed:timeout", None
+    # the second call must validate again; an exhausted script stops it at its first draw if it gets that far
+    if scripted:
+        m._rng = seams.ScriptedRandomState() if cls in ("Staircase", "Bingham") else seams.ScriptedSystemRandom()
+    for a, v in assign.items():
+        setattr(m, a, v)
+
+    def go():
+        try:
+            with warnings.catch_warnings():
+                warnings.simplefilter("ignore")
+                with np.errstate(all="ignore"):
+                    return "ok", m.randomise(value)
+        except seams.ScriptExhausted:
+            return "ok", "<validation passed; sampler reached>"
+        except Exception as e:  # noqa
+            return kind_of(e), None
+    res, timed_out = with_timeout(go)
+    if timed_out:
+        return "ok", "<validation passed; randomise did not return within 2 s>"
+    return res
+
+
+def class_invalid_values(cls, attr):
+    """the class-specific invalid values of the property's list, next to the generic catalogue"""
+    out = list(INVALID_CAT)
+    if attr == "delta" and cls in PURE:
+        out += [0.5, 1e-9, True, 1.0]
+    if attr == "epsilon" and cls == "Gaussian":
+        out += [1.5, 2.0, 3]
+    if attr == "delta" and cls in ("LaplaceBoundedNoise", "Uniform"):
+        out += [0.6, 1.0] + ([0.5] if cls == "LaplaceBoundedNoise" else [])
+    if attr == "epsilon" and cls not in ("Uniform",):
+        out += [0.0] if cls in PURE or cls in ("Gaussian", "GaussianAnalytic", "GaussianDiscrete", "LaplaceBoundedNoise") else []
+    if attr in ("lower", "upper"):
+        out = ["1", None, 1j] + ([-5.0] if attr == "upper" else [50.0])      # lower above upper
+    return out
+
+
 def ctor_line(cls, overrides):
     kw = dict(SPEC[cls]["kw"])
     kw.update(overrides)
@@ -349,12 +413,14 @@ def judge_mech(ctx, cls, stage, assign, kind, returned, model, vkind):
     inv = invalid_reason(cls, vals)
     data = {"unit": "mechanism", "cls": cls, "stage": stage, "assign": {a: enc(v) for a, v in assign.items()}}
     if inv is not None and kind not in ("typeError", "valueError"):
-        suffix = "accepted" if stage == "ctor" else "accepted-at-randomise"
-        if stage == "rand" and kind == "ok":
-            returned = run_rand(cls, assign, scripted=False)[1]
+        suffix = {"ctor": "accepted", "rand": "accepted-at-randomise", "seq": "accepted-at-randomise-after-use"}[stage]
+        if stage in ("rand", "seq") and kind == "ok":
+            k2, r2 = (run_rand if stage == "rand" else run_seq)(cls, assign, scripted=False)
+            returned = r2 if k2 == "ok" else f"<validation passed; the sampler then raised {k2}>"
         what = (f"{cls}: {inv[0]} invalid ({inv[1]}) with {data['assign']} "
                 + ("was accepted by the constructor" if stage == "ctor" else
-                   f"set after construction: randomise returned {returned!r}" if kind == "ok" else f"raised {kind}"))
+                   (f"set after construction{' and one successful randomise' if stage == 'seq' else ''}: "
+                    f"randomise returned {returned!r}") if kind == "ok" else f"raised {kind}"))
         ctx.violation(f"C13:{cls}:{inv[0]}:{inv[1]}:{suffix}", what, data)
     if model != vkind:
         ctx.disagree("mechanism." + stage, data, model, vkind)
@@ -388,6 +454,12 @@ def mech_cases(ctx):
             for lo, up in bounds_grid:
                 cases.append((cls, "ctor", {"lower": lo, "upper": up}))
                 cases.append((cls, "rand", {"lower": lo, "upper": up}))
+    # construct -> use -> assign an invalid value -> randomise must raise (and the unchanged instance still works)
+    for cls in SPEC:
+        cases.append((cls, "seq", {}))
+        for a in attrs_of(cls):
+            for v in class_invalid_values(cls, a):
+                cases.append((cls, "seq", {a: v}))
     # random full tuples
     r = ctx.fork("tuples")
     for _ in range(ctx.budget(1500, 30000)):
@@ -405,11 +477,18 @@ def mech_cases(ctx):
 def check_mechanisms(ctx):
     cases = mech_cases(ctx)
     lines = [ctor_line(c, a) if s == "ctor" else rand_line(c, a) for c, s, a in cases]
+    ctx.count("sequence_cases", len([1 for c in cases if c[1] == "seq"]))
     outs = leanio.run_driver("Validation", lines)
     for (cls, stage, assign), model in zip(cases, outs):
         if stage == "ctor":
             kind, vkind = run_ctor(cls, assign)
             judge_mech(ctx, cls, stage, assign, kind, None, model, vkind)
+        elif stage == "seq":
+            kind, out = run_seq(cls, assign)
+            # when the model's validation passes, an error raised later by the sampler's own computations (e.g. a float
+            # `dimension` used in range()) is outside the modelled unit; the `rand` stage compares `_check_all` itself
+            judge_mech(ctx, cls, stage, assign, kind, out, model,
+                       "ok" if (model == "ok" and not kind.startswith("first-")) else kind)
         else:
             kind, out = run_rand(cls, assign)
             judge_mech(ctx, cls, stage, assign, kind, out, model, run_check_all(cls, assign))
@@ -545,6 +624,25 @@ def check_accountant(ctx):
                 after = acc_state(a)
                 recs.append((f"BudgetAccountant.{op}", (ce, cd, len(prior), e, d),
                              k + (f" {after[0]}" if op == "spend" else ""), eps_delta_invalid(e, d), (before, after)))
+    # constructor with prior spends: every catalogue value in EACH position of a multi-entry list, next to valid entries
+    # large enough to mask it in a composed total; each entry must be validated by itself
+    for ce, cd, goods in [(INF, 1.0, [(2.0, 0.0), (1.0, 0.5)]), (1.0, 0.0, [(0.5, 0), (0.25, 0)]),
+                          (10.0, 0.75, [(2.0, 0.25), (1.0, 0.5)])]:
+        lists = [[(0.0, 0.0)], [goods[0], (0.0, 0.0)], list(goods)]
+        for v in CAT:
+            for bad in ((v, 0.0), (v, 0.25), (0.5, v)):
+                lists += [[bad, goods[0]], [goods[0], bad], [goods[0], bad, goods[1]], [bad]]
+        for lst in lists:
+            toks = " ".join(f"{tok(e)} {tok(d)}" for e, d in lst)
+            lines.append(f"accnew {tok(ce)} {tok(cd)} {toks}")
+            k, obj = call_kind(lambda: BA(ce, cd, spent_budget=list(lst)))
+            inv = None
+            for i, (e, d) in enumerate(lst):
+                r_ = eps_delta_invalid(e, d)
+                if r_:
+                    inv = (f"spent_budget[{i}].{r_[0]}", r_[1])
+                    break
+            recs.append(("BudgetAccountant(spent_budget)", (ce, cd, lst), k + (f" {len(obj)}" if k == "ok" else ""), inv, None))
     outs = leanio.run_driver("Validation", lines)
     for (fn, args, kind, inv, states), model in zip(recs, outs):
         k0 = kind.split()[0]
@@ -719,7 +817,7 @@ def notes_sweep(ctx):
     ctx.note("report-only (parameters outside the property's explicit list): " + "; ".join(obs))
 
 
-def _generate(ctx):
+def generate(ctx):
     from ..translate import chains
     info = chains.generate(os.environ.get("VERIF_REPO", "/repo"), leanio.LEAN)
     ctx.count("translator_chains", info["chains"])
@@ -742,6 +840,8 @@ def replay(ctx, data):
         assign = {a: dec(v) for a, v in d["assign"].items()}
         if d["stage"] == "ctor":
             kind, _ = run_ctor(d["cls"], assign)
+        elif d["stage"] == "seq":
+            kind, _ = run_seq(d["cls"], assign)
         else:
             kind, _ = run_rand(d["cls"], assign)
         return kind not in ("typeError", "valueError")
@@ -772,6 +872,9 @@ def replay(ctx, data):
         return call_kind(V.clip_to_norm, np.ones((2, 2)), args[0])[0] == "ok"
     if fn == "BudgetAccountant":
         return call_kind(dp.BudgetAccountant, *args)[0] == "ok"
+    if fn == "BudgetAccountant(spent_budget)":
+        ce, cd, lst = args
+        return call_kind(lambda: dp.BudgetAccountant(ce, cd, spent_budget=[tuple(x) for x in lst]))[0] == "ok"
     if fn in ("BudgetAccountant.check", "BudgetAccountant.spend"):
         ce, cd, n, e, dd = args
         a = dp.BudgetAccountant(ce, cd, spent_budget=[(0.25, 0.0)] * n if ce == 1.0 else [(0.5, 0.25)] * n)
